@@ -120,7 +120,7 @@ fn case(item: u64, rng: &mut Rng, acc: &mut Acc, quick: bool) {
 
 pub fn run(ctx: &Ctx) -> i32 {
     let quick = ctx.quick();
-    let n_items = ctx.n(300, 5000);
+    let n_items = ctx.n(1500, 8000);
     let acc = par_items(ctx, "C18", n_items, |item, rng, acc| case(item, rng, acc, quick));
     let fin = Finish::new(
         "accepted connected graphs (multi-loop signatures, masses, all D); SampleGenerator -> serde_json string (float_roundtrip) -> back and -> CBOR (ciborium) -> back; re-serialisation byte-identical in both formats, getters equal, and for 40-60 probe points per graph \
